@@ -163,9 +163,9 @@ pub unsafe fn hook_mmap(
     c.seam_events += 1;
     let k = c.sys.mmap_calls;
     c.sys.mmap_calls += 1;
-    if flags & libc::MAP_FIXED != 0 {
+    if flags & (libc::MAP_FIXED | libc::MAP_FIXED_NOREPLACE) != 0 {
         c.sys.map_fixed_seen = true;
-        c.sys.anomalies.push("MAP_FIXED request reached the mmap seam".into());
+        c.sys.anomalies.push("MAP_FIXED / MAP_FIXED_NOREPLACE request reached the mmap seam".into());
         c.ev(EvKind::Sys, 1, len as u64, (-(libc::EINVAL as i64)) as u64);
         set_errno(libc::EINVAL);
         return libc::MAP_FAILED;
